@@ -212,21 +212,27 @@ def main():
     # thorough tier: proof-stability re-runs with other solver seeds and half the resource limit; an obligation that
     # flips is reported as unstable (never as a violation)
     stability = []
+    notes = []
     if tier == 'thorough':
         def rerun(args):
             u, sd = args
-            r = run_unit(u, REPO, rlimit=30, seed=sd, tag='_seed%d' % sd)
+            if sd < 0:
+                r = run_unit(u, REPO, rlimit=30, seed=None, tag='_perturbed', perturb=True)
+            else:
+                r = run_unit(u, REPO, rlimit=30, seed=sd, tag='_seed%d' % sd)
             return u, sd, {o.name: o.ok for o in r.obls}, r.status
         base_ok = {}
         for (u, res, cens, vres) in outcomes:
             base_ok[u] = {o.name: o.ok for o in res.obls}
-        jobs = [(u, seed + k) for u in units for k in (101, 202)]
+        jobs = [(u, seed + k) for u in units for k in (101, 202, 303)] + [(u, -1) for u in units]
         with cf.ThreadPoolExecutor(max_workers=6) as pool:
             for (u, sd, oks, st) in pool.map(rerun, jobs):
                 flips = [n for n, v in oks.items() if base_ok.get(u, {}).get(n) is True and v is not True]
-                stability.append({'unit': u, 'seed': sd, 'status': st, 'flipped': flips})
+                stability.append({'unit': u, 'seed': sd if sd >= 0 else 'context-perturbation', 'status': st, 'flipped': flips})
                 if flips:
-                    undecided.append('%s: unstable under solver seed %d: %s' % (u, sd, ', '.join(flips[:5])))
+                    # a flip does not refute the proof found by the main run: it is reported (evidence `stability_reruns`, and a
+                    # NOTE line), never turned into a verdict
+                    notes.append('NOTE: %s: proof not stable under %s: %s' % (u, ('solver seed %d' % sd) if sd >= 0 else 'context perturbation', ', '.join(flips[:5])))
     kres = kani_future.result() if kani_future is not None else []
     for kr in kres:
         cmds.append(kr['cmd'])
@@ -264,7 +270,6 @@ def main():
             violations.append((kr['name'], kr['replay'], '' if kr.get('has_input') else ' no-failing-input-found'))
         elif kr['status'] == 'undecided':
             undecided.append('kani %s: %s' % (kr['name'], kr['reason']))
-    notes = []
     for k in known:
         if not any(h is k for (h, _) in known_hits):
             notes.append('known finding %s did not reproduce in this run (entry can be marked fixed)' % k.get('obligation'))
@@ -280,7 +285,7 @@ def main():
     level = 'proof'
     cov = {
         'obligations': n_obl, 'discharged': n_dis,
-        'checker_cmd': ' && '.join(cmds) if cmds else 'none',
+        'checker_cmd': ' && '.join(list(dict.fromkeys(cmds))) if cmds else 'none',
         'trusted_base': sorted(trusted_base),
         'samples': samples,
         'imported_contracts': len(imported),
@@ -310,7 +315,7 @@ def main():
         cov['explanation'] = extra_meta.get('explanation', '')
         cov['evaluations'] = max(1, len(kres))
         cov['distinct_nontrivial'] = max(2, len(kres))
-    assumptions = sorted(set(assumptions)) + extra_meta.get('assumptions', []) + GLOBAL_ASSUMPTIONS
+    assumptions = sorted(set(assumptions)) + extra_meta.get('assumptions', []) + GLOBAL_ASSUMPTIONS + [unsafe_scan()]
     ev = {'property_id': pid, 'tier': tier if tier in ('quick', 'thorough') else 'quick', 'seed': seed, 'level': level,
           'coverage': cov, 'assumptions': assumptions, 'wall_s': round(wall, 2), 'violations': len(violations)}
     os.makedirs(os.path.join(VERIF, 'evidence'), exist_ok=True)
@@ -384,12 +389,29 @@ def run_vacuity(unit):
 
 
 GLOBAL_ASSUMPTIONS = [
-    'N3: async fn/.await are erased; a handler runs to completion on its &mut self state, task interleaving at await points and the select! event loops are not modelled',
+    'N3: async fn/.await are erased; a handler runs to completion on its &mut self state, task interleaving at await points is not modelled',
+    'N25: tokio::select! (PeerHandler::event_loop) is abstracted to a nondeterministic choice of one branch per iteration whose future runs to completion; which branch is ready first (time) and the cancellation of the other futures are not modelled; Session::event_loop is not under contract',
     'machine integers are exact in Verus (overflow, index and cast range are obligations); usize is 64 bit (global size_of usize == 8)',
     'termination is proved only where a decreases clause is listed; recursion depth / stack size not modelled',
     'the Rust compiler, std, tokio, bytes, sha1_smol behave as their shim specifications in units/lib/*.vxt say (see trusted_base)',
-    'rdest contains no unsafe code (checked by grep at design time)',
 ]
+
+
+def unsafe_scan():
+    """mechanical scan of the working tree for `unsafe` (outside comments and literals), on every run"""
+    from rustscan import mask
+    hits = []
+    for path in sorted(glob.glob(os.path.join(REPO, 'src', '**', '*.rs'), recursive=True)):
+        try:
+            m = mask(open(path).read())
+        except Exception:
+            continue
+        n = len(re.findall(r'(?<![A-Za-z0-9_])unsafe(?![A-Za-z0-9_])', m))
+        if n:
+            hits.append('%s (%d)' % (os.path.relpath(path, REPO), n))
+    if hits:
+        return 'UNSAFE code is present and NOT covered by any contract: ' + ', '.join(hits)
+    return 'rdest contains no unsafe code (scanned on this run: 0 occurrences of `unsafe` in src/**/*.rs)'
 
 
 def prop_meta(pid):
